@@ -238,7 +238,7 @@ def receiver(prog, st, b, kind, info):
 
 def body(ctx):
     prog = ctx.load(True)
-    ex = io_executor(ctx, prog, extra=cell_summaries() + [(r'^BTreeMap::<String, AMQPValue>::new$', lambda e, s, f, a: [(s, Agg({}, 'FieldTable', 'EMPTY-TABLE'))])])
+    ex = io_executor(ctx, prog, extra=cell_summaries() + [(r'^BTreeMap::<String, AMQPValue>::new$|^<BTreeMap<String, AMQPValue> as Default>::default$', lambda e, s, f, a: [(s, Agg({}, 'FieldTable', 'EMPTY-TABLE'))])])
     ctx.bound('operations', f"{len(OPS)} public operations, all arguments symbolic (opaque strings / tables, symbolic booleans and integers, ExchangeType over all variants)")
     ctx.assume("strings and field tables are opaque values compared by identity/equality; wire encoding of the method is amq-protocol's; replies pre-loaded on the channel's reply queue are arbitrary")
     ops = OPS
@@ -363,6 +363,18 @@ def missing_ops(ctx, prog):
     covered |= {('Channel', x) for x in ('new', 'close', 'channel_id', 'call', 'call_nowait', 'basic_publish', 'listen_for_publisher_confirms', 'listen_for_returns', 'basic_ack', 'basic_nack', 'basic_reject', 'basic_cancel', 'drop')}
     covered |= {('Queue', x) for x in ('new', 'name', 'declared_message_count', 'declared_consumer_count')} | {('Exchange', x) for x in ('new', 'direct', 'name', 'publish')}
     covered |= {('Consumer', x) for x in ('new', 'consumer_tag', 'receiver', 'drop')} | {('Delivery', x) for x in ('new', 'new_get_ok', 'delivery_tag')}
+    # only what a user can call counts: private helpers are reached through the public operations that use them
+    import re as _re
+    pub = set()
+    for ty_, rel in (('Channel', 'src/channel.rs'), ('Queue', 'src/queue.rs'), ('Exchange', 'src/exchange.rs'), ('Consumer', 'src/consumer.rs'), ('Delivery', 'src/delivery.rs')):
+        try:
+            src_ = prog.src(rel)
+        except Exception:
+            src_ = None
+        if src_ is None:
+            pub = None
+            break
+        pub |= {(ty_, m_) for m_ in _re.findall(r'^\s*pub fn (\w+)', src_, _re.M)}
     missing = []
     for fname, fl in prog.funcs.items():
         for f in fl:
@@ -371,7 +383,7 @@ def missing_ops(ctx, prog):
             if not ii or md['closure_of'] or ii.trait is not None:
                 continue
             ty = last_seg(ii.self_ty)
-            if ty in ('Channel', 'Queue', 'Exchange', 'Consumer', 'Delivery') and (ty, md['last']) not in covered and 'promoted' not in f.name:
+            if ty in ('Channel', 'Queue', 'Exchange', 'Consumer', 'Delivery') and (ty, md['last']) not in covered and 'promoted' not in f.name and (pub is None or (ty, md['last']) in pub):
                 missing.append(f"{ty}::{md['last']}")
     ctx.extra['operations_not_in_table'] = sorted(set(missing))
     if missing:
